@@ -13,18 +13,29 @@ SOURCES = ["src/allmydata/scripts/backupdb.py", "src/allmydata/scripts/tahoe_bac
            "src/allmydata/util/dbutil.py"]
 DESIGN_REF = "DESIGN.md §2 C42"
 TECHNIQUE = ("Lean 4 invariant proofs over an executable finite-map model of BackupDB_v2 (all six public methods, "
-             "FileResult/DirectoryResult); netstring unique decodability and canonical sorting proved for the directory "
-             "encoding; differential correspondence of seeded API-call histories against a real BackupDB_v2 on SQLite "
-             "with os.stat / time.time / random.random controlled")
-LEVEL_TEXT = ("Session level (the tool working through FileResult/DirectoryResult objects, incl. old ones): "
-              "session_reuse_only_if_unchanged, session_results_carry_sampled_stat, session_dir_reuse_only_same_contents; caps table: "
-              "fileid_of_cap_unique, fileid_determines_cap, alloc_stable_along_history, alloc_independent_of_other_tables. "
-              "reuse_only_if_unchanged and dir_reuse_only_same_contents (under an explicit collision-freeness hypothesis on the "
-              "directory hash) are proved for every history of API calls; dir_encoding_injective/canonical for all contents; "
-              "the model is tied to the code by comparing every call's result, the hashed directory string and full table dumps.")
+             "FileResult/DirectoryResult), of the tool's use of it through result objects (sessions) and of whole backup runs "
+             "(per-file / per-directory run steps, ordinary and --ignore-timestamps); netstring unique decodability and canonical "
+             "sorting proved for the directory encoding; differential correspondence of seeded API-call histories against a real "
+             "BackupDB_v2 on SQLite with os.stat / time.time / random.random controlled, and of whole runs against the real "
+             "tahoe_backup machinery (collect_backup_targets, run_backup, BackerUpper.upload / upload_directory) with the HTTP layer faked")
+LEVEL_TEXT = ("21 theorems, none partial. Files: reuse_only_if_unchanged (every history of API calls: a cap is reported only with trusted "
+              "timestamps and size/mtime/ctime equal to the record of the most recent upload of the path, whose cap it is), "
+              "did_upload_records_sampled_stat and reuse_only_if_sampled_stat_unchanged (the record is the stat sampled at check time), "
+              "session_reuse_only_if_unchanged and session_results_carry_sampled_stat (the tool working through result objects, old ones "
+              "included), backup_runs_reuse_sound (every reuse decision, file and directory, in any history of ordinary and "
+              "--ignore-timestamps runs), ignore_timestamps_run_records_new_cap, tool_file_step_reuse_sound, tool_dir_step_reuse_sound. "
+              "Caps table: fileid_of_cap_unique, fileid_determines_cap, alloc_stable_along_history, alloc_independent_of_other_tables. "
+              "Directories: dir_encoding_injective and dir_encoding_canonical without hypothesis; dir_reuse_only_same_contents, "
+              "dir_reuse_witness, session_dir_reuse_only_same_contents under the explicit hypothesis that the directory hash is injective. "
+              "Also no_check_within_a_month, always_check_after_two_months, netstring_sample_pinned. The model is tied to the code by "
+              "comparing every call's result, the hashed directory string, full table dumps, and every per-file / per-directory decision "
+              "of whole runs of the real tool.")
 LEVEL_NOTE = ("Lean kernel + standard axioms; the model is a hand transcription tied by correspondence; SQLite semantics "
               "(PRIMARY KEY/UNIQUE/AUTOINCREMENT, REPLACE) are modelled as finite maps; the clock is integer seconds and "
-              "random() a multiple of 1/1024 (float rounding argued harmless, boundary cases generated).")
+              "random() a multiple of 1/1024 (float rounding argued harmless, boundary cases generated). Correspondence only (no theorem): "
+              "SQLite itself, abspath_expanduser_unicode, the float arithmetic of the check probability, SHA-256d/base32 (hypothesis "
+              "Function.Injective H), and that tahoe_backup.py uses the result objects as the session model says. No defect of /repo was found "
+              "for this property; all five seeded changes (C42-a..e) are caught by fixed-corpus cases.")
 RULE = ("seeded histories of check_file / did_upload / did_check_healthy / check_directory / did_create / did_check_healthy "
         "(also on stale result objects), whole backup runs following tahoe_backup.py's protocol, file edits (size, mtime, ctime, "
         "reverts, renames), writes inside the upload window — between check_file(path) and result.did_upload(cap): same-size and "
@@ -36,11 +47,15 @@ RULE = ("seeded histories of check_file / did_upload / did_check_healthy / check
         "the PUT), clock jumps around the 1- and 2-month thresholds, table dumps and database reopen; a case is one API "
         "call; distinct = distinct (history prefix, call); non-trivial = a check_file on a path that has an upload record or a "
         "check_directory after at least one did_create")
-TRUSTED = ["lean/Tahoe/BackupDb.lean is a hand transcription of BackupDB_v2; SQLite tables are modelled as finite maps",
+TRUSTED = ["lean/Tahoe/BackupDb.lean is a hand transcription of BackupDB_v2 (SQLite tables are modelled as finite maps); "
+           "lean/Tahoe/BackupDb/Session.lean is a hand transcription of how tahoe_backup.py uses it (result objects, "
+           "check_backupdb_file / upload / check_backupdb_directory / upload_directory as run steps)",
+           "in the whole-run family do_http and mkdir of tahoe_backup are replaced by local fakes (content-derived file caps, fresh "
+           "dircaps) and a virtual mtime/ctime is laid over os.stat in backupdb's namespace",
            "the harness replaces the names os, time and random in backupdb's module namespace (and wraps backupdb_dirhash to "
            "record the hashed string)"]
 ASSUMPTIONS = [
-    "the directory hash (tagged SHA-256d, base32) is collision-free (explicit hypothesis of dir_reuse_only_same_contents; the driver uses the identity)",
+    "the directory hash (tagged SHA-256d, base32) is collision-free (explicit hypothesis Function.Injective H of dir_reuse_only_same_contents, session_dir_reuse_only_same_contents, tool_dir_step_reuse_sound and the directory half of backup_runs_reuse_sound; the driver uses the identity)",
     "paths are absolute and normalised (abspath_expanduser_unicode is the identity on them); str.encode('utf-8') is injective",
     "time.time() returns integer seconds and random.random() a multiple of 1/1024; the float comparison then equals the exact rational one (|p - r| >= 1/(1024*2592000) unless equal)",
     "os.stat succeeds (the tool only checks files it has just listed); did_check_healthy is called on results that carry a cap (API contract)",
